@@ -35,6 +35,7 @@ pub struct Profile {
     pub w_route: u32,
     pub w_loop: u32,
     pub w_broadcast: u32,
+    pub w_cwin: u32,
     pub remote_bias: u32,
     pub big_pad: bool,
     pub small_batches: bool,
@@ -87,6 +88,7 @@ impl Profile {
             w_route: 3,
             w_loop: 4,
             w_broadcast: 0,
+            w_cwin: 3,
             remote_bias: 50,
             big_pad: false,
             small_batches: false,
@@ -330,6 +332,19 @@ impl<'t> Gen<'t> {
         UnOp::Gb(f, a)
     }
 
+    pub fn gen_count_window(&mut self) -> UnOp {
+        let n = 1 + self.t.draw(6) as usize;
+        let s = 1 + self.t.draw(n as u32) as usize;
+        let aggs = [WinAgg::Chain, WinAgg::Count, WinAgg::Sum, WinAgg::Min, WinAgg::Max, WinAgg::First];
+        let agg = aggs[self.t.draw(aggs.len() as u32) as usize];
+        let kind = WinKind::Count { n, s, exact: self.t.draw(2) == 1 };
+        if self.t.draw(4) == 3 {
+            UnOp::WinAll(kind, agg)
+        } else {
+            UnOp::Win(kind, agg)
+        }
+    }
+
     pub fn gen_gl(&mut self) -> UnOp {
         let forms = [GlForm::Fold, GlForm::Reduce, GlForm::FoldAssoc, GlForm::ReduceAssoc];
         let f = forms[self.t.draw(4) as usize];
@@ -406,6 +421,7 @@ impl<'t> Gen<'t> {
             p.w_route,
             if allow_loop && depth == 0 { p.w_loop } else { 0 },
             p.w_broadcast,
+            if depth == 0 { p.w_cwin } else { 0 },
         ];
         // inside loop bodies keep to operators that restart cleanly per iteration
         if depth > 0 {
@@ -517,8 +533,12 @@ impl<'t> Gen<'t> {
             11 => {
                 self.gen_loop(i, false);
             }
-            _ => {
+            12 => {
                 self.un(i, UnOp::Broadcast);
+            }
+            _ => {
+                let op = self.gen_count_window();
+                self.un(i, op);
             }
         }
     }
